@@ -28,7 +28,7 @@ MANIFEST = {
             "modelled. The specification side (a query's value does not depend on which other queries are asked) is the "
             "Lean theorem listed in the obligation list.",
     "note": "Trusted: harness. An engine OBJECT is unusable after an exception escaped execute(); histories therefore use a "
-            "fresh engine per history (same database/target reuse is what the property states).",
+            "fresh engine per history (same database/target reuse is what the property states). First-order sub-phase (harness/groundfo_util.py): programs with variables against ProbLogModel/GroundFO.lean, exact correspondence under the recorded schedule / history; the semantic statement (CorrectFO) is checked per program by Drivers.GroundFOCheck under the recorded and an arbitrary schedule, and proved for the model in partial-correctness form (C01GroundFOFull: every schedule and history, against Sem.wfm of the Herbrand instantiation, under the decidable hypotheses SpecOK which the driver decides per program; termination of the model is not proved).",
     "design_ref": "DESIGN.md §6 C08",
 }
 
@@ -47,6 +47,9 @@ def variants(P, seed):
     for k in range(N[0]):
         mode = ["shared_target", "ground_all", "shared_db"][k % 3]
         h = dict(base, mode=mode, seed=rng.randrange(1 << 30))
+        if mode == "ground_all" and P["evidence"] and k % 2 == 1:
+            h["propagate"] = True
+            mode = "ground_all+propagate"
         out.append(("%s#%d" % (mode, k), src, {"history": h}))
     return out
 
@@ -59,6 +62,9 @@ def run(ctx):
     # correspondence of ground program and table) and history independence is a theorem (C08_ground_history_independent)
     import ground_util
     gerr = ground_util.guarded(ctx, "history", 200, 6000)
+    import groundfo_util           # the same on programs WITH variables (first-order model, exact correspondence)
+    gerr2 = groundfo_util.guarded(ctx, "history", 150, 5000)
+    gerr = gerr or gerr2
     rc = cfgprop.run(ctx, MODULE, THEOREMS, variants, nq=50, nt=700, level="other",
                      explanation="Histories are explored, not proved, on general programs; every history's answers are compared "
                                  "with the Lean specification value. On ground programs without recursion the engine and its "
